@@ -274,7 +274,7 @@ def divisors(n):
 
 
 def schedule_strategy(max_dur=12, max_epochs=5, min_posterior=1, chains=(1, 3), allow_thinning=True, max_kernels=3,
-                      err_tables=False, want_script=True):
+                      err_tables=False, want_script=True, min_kernels=1):
     from hypothesis import strategies as st
 
     @st.composite
@@ -301,7 +301,7 @@ def schedule_strategy(max_dur=12, max_epochs=5, min_posterior=1, chains=(1, 3), 
             epochs.append(mk(4, True))
         durs = [e[1] for e in epochs[1:]]
         chunk = draw(st.sampled_from(divisors(math.gcd(*durs))))
-        nk = draw(st.integers(1, max_kernels))
+        nk = draw(st.integers(min_kernels, max_kernels))
         keys = draw(st.permutations(POOL))[: draw(st.integers(nk, len(POOL)))]
         # split keys over kernels (each >= 1); leftovers stay kernel-less state entries
         cuts = sorted(draw(st.lists(st.integers(1, len(keys) - 1), min_size=nk - 1, max_size=nk - 1, unique=True))) if nk > 1 and len(keys) > 1 else []
@@ -327,8 +327,9 @@ def schedule_strategy(max_dur=12, max_epochs=5, min_posterior=1, chains=(1, 3), 
             sp["script_seed"] = draw(st.lists(st.integers(0, 2), min_size=2 * len(epochs) + 2, max_size=2 * len(epochs) + 2))
         if err_tables:
             T = 1 + sum(durs)
-            for kk in kernels:
-                mode = draw(st.sampled_from(["none", "warm", "post", "one-chain", "dense", "dense"]))
+            for i, kk in enumerate(kernels):
+                modes = ["dense", "dense", "sparse", "one-chain", "warm", "post"] + (["none"] if i == 0 else ["none"] * 5)
+                mode = draw(st.sampled_from(modes))
                 kk["errs"] = {"mode": mode, "seed": draw(st.integers(0, 2**20)), "T": T}
         return sp
 
@@ -350,7 +351,7 @@ def err_table(spec, kk):
         return tab
     rng = np.random.default_rng([e["seed"], 19])
     codes = rng.choice([1, 2, 7], size=tab.shape)
-    dens = rng.random(tab.shape) < (0.5 if e["mode"] == "dense" else 0.35)
+    dens = rng.random(tab.shape) < {"dense": 0.5, "sparse": 0.08}.get(e["mode"], 0.35)
     tab = np.where(dens, codes, 0).astype(np.int32)
     # phase masks
     t = 1
